@@ -1019,3 +1019,53 @@ def state_mut_sites(facts, body, fields, self_local=1, depth=4, _memo=None):
                 else:
                     sites.append((bi, "call:%s(extern)" % (path or "?").split("::")[-1]))
     return sorted(set(sites))
+
+
+# ---------------------------------------------------------------- may-live analysis of one owning local
+
+def _moves_local(o, l):
+    return isinstance(o, dict) and o.get("k") == "mv" and "p" not in o.get("p", {"p": 1}) and o["p"]["l"] == l
+
+
+def live_at_terminator(body, l):
+    """blocks at whose terminator the owning local `l` may hold a value (assigned on some path and neither moved out
+    nor dropped since). Forward may-analysis on the non-unwind CFG."""
+    n = len(body.blocks)
+    inn = [False] * n
+    out_term = [False] * n        # state just before the terminator executes
+    out = [False] * n
+    work = [0]
+    seen_once = set()
+    while work:
+        bi = work.pop()
+        st = inn[bi]
+        for s_ in body.blocks[bi]["s"]:
+            if s_["k"] != "as":
+                continue
+            rv = s_["rv"]
+            ops = [rv.get("o"), rv.get("a"), rv.get("b")] + list(rv.get("ops", ()))
+            if any(_moves_local(o, l) for o in ops):
+                st = False
+            if s_["p"]["l"] == l and "p" not in s_["p"]:
+                st = True
+        before = st
+        t = body.blocks[bi]["t"]
+        if t["k"] == "drop" and t["p"]["l"] == l and "p" not in t["p"]:
+            st = False
+        elif t["k"] == "call":
+            if any(_moves_local(a, l) for a in t["a"]):
+                st = False
+            if t["dst"]["l"] == l and "p" not in t["dst"]:
+                st = True
+        changed = (bi not in seen_once) or before != out_term[bi] or st != out[bi]
+        seen_once.add(bi)
+        out_term[bi] = out_term[bi] or before
+        out[bi] = out[bi] or st
+        if changed:
+            for tgt, _ in body.succ_edges(bi):
+                if out[bi] and not inn[tgt]:
+                    inn[tgt] = True
+                    work.append(tgt)
+                elif tgt not in seen_once:
+                    work.append(tgt)
+    return {bi for bi in range(n) if out_term[bi]}
